@@ -530,6 +530,28 @@ func (e *daemonEngine) scanSecrets() {
 			}
 		}
 	}
+	// what went to the process's standard output (loggers built without an output), and content that was written
+	// to files others could read at that moment
+	e.stdoutMu.Lock()
+	so := append([]byte(nil), e.stdoutLog.Bytes()...)
+	loose := append([]looseWrite(nil), e.looseWrites...)
+	e.stdoutMu.Unlock()
+	e.rec.Count("probe:stdout_log_bytes_scanned", len(so))
+	for _, s := range secrets {
+		for k, enc := range s.enc {
+			if len(enc) < 16 {
+				continue
+			}
+			if bytes.Contains(so, enc) {
+				e.rec.Violate("C15", "secret-in-log", fmt.Sprintf("stdout-enc%d", k), "%s of %s appears in what the daemon writes to its standard output", s.what, s.who)
+			}
+			for _, lw := range loose {
+				if lw.node == s.who && bytes.Contains(lw.content, enc) {
+					e.rec.Violate("C15", "secret-file-not-owner-only", filepath.Base(lw.path)+" while being written", "%s received the %s of %s while its mode was %o", filepath.Base(lw.path), s.what, s.who, lw.mode)
+				}
+			}
+		}
+	}
 	logBytes := 0
 	for _, n := range e.nodes {
 		logBytes += n.logBuf.Len()
